@@ -118,7 +118,7 @@ func (r *Relay) Validate(
 		var sessionEndCtx sdk.Ctx
 		if ctx.BlockHeight() > sessionEndHeight {
 			if sessionEndCtx, err = ctx.PrevCtx(sessionEndHeight); err != nil {
-				return sdk.ZeroInt(), sdk.ErrInternal(er.Error())
+				return sdk.ZeroInt(), sdk.ErrInternal(err.Error())
 			}
 		} else {
 			sessionEndCtx = ctx
